@@ -68,7 +68,7 @@ def make_policy(w, n):
     return base.ConstructivePolicy(Enc(), Dec(), env_name="tsp")
 
 
-def rederive(n, seq, forced_first, tag=0.0):
+def rederive(n, seq, forced_first, tag=0.0, temperature=1.0):
     """independent re-derivation for TSP: per-step log-probability of each action of `seq` under the masked,
     normalised distribution of the state reached by the preceding actions (first move forced => contributes 0)"""
     avail, first, cur = [True] * n, None, None
@@ -78,7 +78,7 @@ def rederive(n, seq, forced_first, tag=0.0):
             if forced_first:
                 steps.append(0.0)
             else:
-                lg = state_logits(n, 0, 0, avail, tag=tag)
+                lg = [T.s_div(x, temperature) for x in state_logits(n, 0, 0, avail, tag=tag)]
                 rowx = [XR(False, l, s_not(av)) for l, av in zip(lg, avail)]
                 lsm = lsm_stub(T.Tensor(np.array([rowx], dtype=object), T.float32), -1, True).a[0]
                 p = pick(a, [x.v for x in lsm])
@@ -87,7 +87,7 @@ def rederive(n, seq, forced_first, tag=0.0):
             first = cur = a
             avail = [s_not(s_eq(a, j)) for j in range(n)]
             continue
-        lg = state_logits(n, first, cur, avail, tag=tag)
+        lg = [T.s_div(x, temperature) for x in state_logits(n, first, cur, avail, tag=tag)]
         rowx = [XR(False, l, s_not(av)) for l, av in zip(lg, avail)]
         lsm = lsm_stub(T.Tensor(np.array([rowx], dtype=object), T.float32), -1, True).a[0]
         p = pick(a, [x.v for x in lsm])
@@ -102,7 +102,9 @@ def _val(x):
     return x.v if isinstance(x, XR) else x
 
 
-def ll_job(job_id, decode_type="greedy", n=3, B=2, num_starts=None, source_filter=None):
+def ll_job(job_id, decode_type="greedy", n=3, B=2, num_starts=None, temperature=1.0, flagged=False, source_filter=None):
+    """temperature: softmax temperature handed to the policy; flagged: the state carries `mask` [B, steps] (steps flagged False are
+    irrelevant to the objective and must contribute zero log-likelihood, in the rollout AND when the actions are re-evaluated)"""
     E = explore.EXP
     ctx = core.Ctx(job_id)
     w = world.make_world(source_filter=source_filter)
@@ -120,7 +122,7 @@ def ll_job(job_id, decode_type="greedy", n=3, B=2, num_starts=None, source_filte
         if E_.check(neg) == z3.sat:
             m = E_.model()
             return [{"kind": "script", "path": core.ROOT + "/vf/torch_side", "module": "policy_side", "func": "run_ll", "model_kind": "plain", "mode": "C11",
-                     "params": {"decode_type": decode_type, "n": n, "B": B, "num_starts": num_starts}}]
+                     "params": {"decode_type": decode_type, "n": n, "B": B, "num_starts": num_starts, "temperature": temperature, "flagged": flagged}}]
         return []
 
     from symtorch import scalar as SC
@@ -131,9 +133,17 @@ def ll_job(job_id, decode_type="greedy", n=3, B=2, num_starts=None, source_filte
         E.assume(z3.ForAll([_x, _y], SC._MULC(_x, _y) == SC._MULC(_y, _x)))
         locs = T.sym_tensor("loc", (B, n, 2), T.float32)
         td = env.reset(TensorDict({"locs": locs}, batch_size=[B]))
+        flags = T.sym_tensor("relevant", (B, n), T.bool_) if flagged else None
+        if flagged:
+            td.set("mask", flags)
         kw = dict(decode_type=decode_type, return_entropy=False)
+        if temperature != 1.0:
+            kw["temperature"] = temperature
         if multi:
             kw["num_starts"] = num_starts or n
+
+        def flag(r, t):
+            return flags.a[r % B, t] if flagged else True
         try:
             out = policy(td.clone(), env, phase="test", **kw)
         except AssertionError as e:
@@ -142,12 +152,13 @@ def ll_job(job_id, decode_type="greedy", n=3, B=2, num_starts=None, source_filte
         E.obligations = []
         acts, ll = out["actions"], out["log_likelihood"]
         rows = acts.shape[0]
-        nm = f"{decode_type} n={n} B={B}"
+        nm = f"{decode_type} n={n} B={B}" + (f" T={temperature}" if temperature != 1.0 else "") + (" flagged-steps" if flagged else "")
         k = (num_starts or n) if multi else 1
         ctx.prove(E, f"[{nm}] one row per (instance, start)", rows == B * k and tuple(ll.shape) == (rows,), cexb)
         for r in range(rows):
             seq = list(acts.a[r])
-            total, _ = rederive(n, seq, forced_first=multi, tag=locs.a[r % B, 0, 0])  # row r belongs to instance r mod B
+            _, steps0 = rederive(n, seq, forced_first=multi, tag=locs.a[r % B, 0, 0], temperature=temperature)  # row r belongs to instance r mod B
+            total = _sum([T.s_where(flag(r, t), steps0[t], 0.0) for t in range(n)])
             ctx.prove(E, f"[{nm}] row {r}: returned actions form a permutation", z3.Distinct(*[T._int(x) for x in seq]) if n > 1 else True, cexb)
             ctx.prove(E, f"[{nm}] row {r}: log-likelihood == sum over steps of the masked-normalised log-probability of the action taken{' (forced first move contributes 0)' if multi else ''}",
                       s_eq(_val(ll.a[r]), total), cexb)
@@ -157,13 +168,14 @@ def ll_job(job_id, decode_type="greedy", n=3, B=2, num_starts=None, source_filte
                 ctx.prove(E, f"[{nm}] instance {b}: forced first moves are the distinct start nodes 0..k-1", all_([s_eq(firsts[j], j % n) for j in range(k)]), cexb)
         if not multi:
             # evaluate round trip (PPO): feeding the returned actions back reproduces per-step log-probs, reward and entropy
-            out_a = policy(td.clone(), env, phase="test", decode_type=decode_type, return_entropy=True, return_sum_log_likelihood=False) if decode_type == "greedy" else None
-            out2 = policy(td.clone(), env, phase="train", actions=acts, return_entropy=True, return_sum_log_likelihood=False)
+            out_a = policy(td.clone(), env, phase="test", decode_type=decode_type, return_entropy=True, return_sum_log_likelihood=False, **({"temperature": temperature} if temperature != 1.0 else {})) if decode_type == "greedy" else None
+            out2 = policy(td.clone(), env, phase="train", actions=acts, return_entropy=True, return_sum_log_likelihood=False, **({"temperature": temperature} if temperature != 1.0 else {}))
             E.obligations = []
             ll2 = out2["log_likelihood"]
             for r in range(rows):
-                _, steps = rederive(n, list(acts.a[r]), forced_first=False, tag=locs.a[r % B, 0, 0])
-                ctx.prove(E, f"[{nm}] row {r}: evaluating the returned actions reproduces the same per-step log-probabilities", all_([s_eq(_val(ll2.a[r, t]), steps[t]) for t in range(n)]), cexb)
+                _, steps = rederive(n, list(acts.a[r]), forced_first=False, tag=locs.a[r % B, 0, 0], temperature=temperature)
+                ctx.prove(E, f"[{nm}] row {r}: evaluating the returned actions reproduces the same per-step log-probabilities (flagged steps: zero)",
+                          all_([s_eq(_val(ll2.a[r, t]), T.s_where(flag(r, t), steps[t], 0.0)) for t in range(n)]), cexb)
                 ctx.prove(E, f"[{nm}] row {r}: evaluation returns the same reward", s_eq(out2["reward"].a[r], out["reward"].a[r]), cexb)
                 ctx.prove(E, f"[{nm}] row {r}: the summed evaluation log-likelihood equals the rollout's (PPO ratio starts at 1)",
                           s_eq(_sum([_val(x) for x in ll2.a[r]]), _val(ll.a[r])), cexb)
